@@ -216,7 +216,7 @@ func c11Child(raw json.RawMessage) any {
 	waitCb := func(name string, n int, d time.Duration) bool {
 		dl := time.Now().Add(d)
 		for cbCount(name) < n {
-			if time.Now().After(dl) {
+			if deadlinePassed(dl) {
 				return false
 			}
 			time.Sleep(100 * time.Microsecond)
